@@ -14,7 +14,7 @@ GUARD = "CPPCMS_VERIF"
 COMMON_WARN = "-w"
 FLAVORS = {
     "asan": dict(cxx="g++", cc="gcc",
-                 flags="-O1 -g -fno-omit-frame-pointer -fsanitize=address,undefined -fno-sanitize=nonnull-attribute "
+                 flags="-O1 -g -fno-omit-frame-pointer -fsanitize=address,undefined,float-cast-overflow -fno-sanitize=nonnull-attribute "
                        "-fno-sanitize-recover=all -D%s" % GUARD),
     "tsan": dict(cxx="g++", cc="gcc",
                  flags="-O1 -g -fno-omit-frame-pointer -fsanitize=thread -D%s" % GUARD),
@@ -22,7 +22,7 @@ FLAVORS = {
     # not a check flavor: `VERIF_COVERAGE=1 ./check ...` (see bin/coverage) maps asan/tsan/plain to it to find what the workloads never reach
     "cov": dict(cxx="g++", cc="gcc", flags="-O0 -g --coverage -fprofile-update=atomic -DVERIF_COVERAGE_BUILD -D%s" % GUARD),
     "fuzz": dict(cxx="clang++-14", cc="clang-14",
-                 flags="-O1 -g -fno-omit-frame-pointer -fsanitize=fuzzer-no-link,address,undefined -fno-sanitize=nonnull-attribute "
+                 flags="-O1 -g -fno-omit-frame-pointer -fsanitize=fuzzer-no-link,address,undefined,float-cast-overflow -fno-sanitize=nonnull-attribute "
                        "-fno-sanitize-recover=all -fno-sanitize=object-size -D%s" % GUARD,
                  link_extra="-fsanitize=fuzzer"),
 }
